@@ -205,6 +205,71 @@ func (r *Replayer) Run(vecs []*Vector) ([]*NativeResult, error) {
 		files = append(files, p)
 	}
 	out := make([]*NativeResult, len(vecs))
+	// vectors that fix process environment variables run in their own process (package init sees them)
+	var plain []int
+	for i, v := range vecs {
+		var env []string
+		for k, val := range v.Vals {
+			if strings.HasPrefix(k, "env:") {
+				s, _ := val.(string)
+				if s == "@FILE" {
+					fp := filepath.Join(r.dir, fmt.Sprintf("envfile-%d.bin", i))
+					buf := make([]byte, 64)
+					for j := range buf {
+						buf[j] = byte(7*j + 3)
+					}
+					os.WriteFile(fp, buf, 0644)
+					s = fp
+				}
+				env = append(env, strings.TrimPrefix(k, "env:")+"="+s)
+			}
+		}
+		if env == nil {
+			plain = append(plain, i)
+			continue
+		}
+		cmd := exec.Command(r.bin, "-test.run", "TestVerifReplay", "-test.count=1")
+		cmd.Dir = repoDir()
+		cmd.Env = append(append(goEnv(), env...), "VERIF_VECTORS="+files[i], "VERIF_GOLDEN="+filepath.Join(verifDir(), "golden"))
+		b, err := cmd.CombinedOutput()
+		rb, rerr := os.ReadFile(files[i] + ".out")
+		if rerr != nil {
+			return nil, fmt.Errorf("native replay (with environment %v) produced no result: %v\n%s", env, err, b)
+		}
+		var nr NativeResult
+		if jerr := json.Unmarshal(rb, &nr); jerr != nil {
+			return nil, jerr
+		}
+		out[i] = &nr
+	}
+	if len(plain) < len(vecs) {
+		var pf []string
+		for _, i := range plain {
+			pf = append(pf, files[i])
+		}
+		for lo := 0; lo < len(pf); lo += 200 {
+			hi := lo + 200
+			if hi > len(pf) {
+				hi = len(pf)
+			}
+			cmd := exec.Command(r.bin, "-test.run", "TestVerifReplay", "-test.count=1")
+			cmd.Dir = repoDir()
+			cmd.Env = append(goEnv(), "VERIF_VECTORS="+strings.Join(pf[lo:hi], ":"), "VERIF_GOLDEN="+filepath.Join(verifDir(), "golden"))
+			b, err := cmd.CombinedOutput()
+			for _, i := range plain[lo:hi] {
+				rb, rerr := os.ReadFile(files[i] + ".out")
+				if rerr != nil {
+					return nil, fmt.Errorf("native replay run failed: %v\n%s", err, b)
+				}
+				var nr NativeResult
+				if jerr := json.Unmarshal(rb, &nr); jerr != nil {
+					return nil, jerr
+				}
+				out[i] = &nr
+			}
+		}
+		return out, nil
+	}
 	// chunk to keep the environment variable small
 	for lo := 0; lo < len(files); lo += 200 {
 		hi := lo + 200
